@@ -168,7 +168,7 @@ def _worker(args):
     jobs = (job_at(pid, seed, enum, i) for i in range(wid, len(enum) + n_seeded, nw))
     fault_probes = getattr(prop, "FAULT_PROBES", {})
     res = {
-        "runs": 0, "must_runs": 0, "skipped": 0, "cover": set(), "faults": {}, "probes": {},
+        "runs": 0, "cases": 0, "must_runs": 0, "skipped": 0, "cover": set(), "faults": {}, "probes": {},
         "obs": {}, "violations": [], "harness": [], "sim_s": 0.0, "digest": hashlib.blake2b(digest_size=16),
         "samples": [], "first_digests": {}, "steps": 0, "sched": set(), "contested": 0,
         "must_skipped": 0,
@@ -186,6 +186,7 @@ def _worker(args):
         if index < len(enum):
             res["must_runs"] += 1       # (enumerated cases only; the guaranteed seeded jobs count as seeded)
         res["cover"] |= ctx.cover_keys
+        res["cases"] += max(ctx.cover_calls, 1)
         for k, v in ctx.faults.items():
             res["faults"][k] = res["faults"].get(k, 0) + v
         for k, v in ctx.probes.items():
@@ -537,6 +538,7 @@ def main_check(pid, tier, seed, budget_s=None):
         return 2
     # merge
     runs = sum(r["runs"] for r in results)
+    cases = sum(r["cases"] for r in results)    # judged cases (cover calls): a run of a history-type scenario judges several
     cover = set()
     faults, probes, obs = {}, {}, {}
     viol, harness = [], []
@@ -661,7 +663,8 @@ def main_check(pid, tier, seed, budget_s=None):
         "seed": seed,
         "level": prop.LEVEL,
         "coverage": {
-            "evaluations": runs,
+            "evaluations": cases,
+            "runs": runs,
             "distinct_nontrivial": nontrivial,
             "rule": prop.RULE,
             "samples": samples,
